@@ -51,7 +51,8 @@ def tag_name(t):
 
 class _Canon:
 
-  def __init__(self, with_tags=True, with_history=False):
+  def __init__(self, with_tags=True, opaque_callables=False):
+    self.opaque_callables = opaque_callables
     self.ids = {}
     self.keep = []  # pin visited objects so ids are not recycled
     self.with_tags = with_tags
@@ -143,6 +144,12 @@ class _Canon:
         return {'ref': n}
       return {'#': n, 'obj': rec.stub,
               'args': [[k, self.go(v)] for k, v in sorted(rec.args.items())]}
+    if self.opaque_callables and (isinstance(x, functools.partial)
+                                  or getattr(x, '_fsim_callable', False)):
+      n, seen = self._number(x)
+      if seen:
+        return {'ref': n}
+      return {'#': n, 'callable': 1}
     if isinstance(x, functools.partial):
       n, seen = self._number(x)
       if seen:
@@ -215,8 +222,8 @@ def as_node(x):
   return None
 
 
-def canon(x, with_tags=True):
-  return _Canon(with_tags=with_tags).go(x)
+def canon(x, with_tags=True, opaque_callables=False):
+  return _Canon(with_tags=with_tags, opaque_callables=opaque_callables).go(x)
 
 
 def canon_exc(e):
